@@ -214,8 +214,10 @@ class ApertureBalancerSink(HeapBalancerSink):
     Args:
       amount - The amount to change the load by.  May be +/-1
     """
-    self._total += amount
+    # The EMA weights a sample by the time elapsed since the previous one, and
+    # that time was spent at the old level: update it before applying the change.
     avg = self._ema.Update(self._time.Sample(), self._total)
+    self._total += amount
     aperture_size = self._size
     if aperture_size == 0:
       # Essentially infinite load.
